@@ -12,7 +12,8 @@ EXPLANATION = (
     "size inference uses the normaliser's output. Residual: binary64 exactness of the two affine steps."
     ' Added after the third round of seeded changes: constructor state (C20.R2): element views and like= objects start with their own fresh status record.'
     ' Added after the fourth round of seeded changes: R8 on every path that applies the map the value type is tested for int and promoted; equal() and the other re-scaling routes (C10.R1/R2); the scaled indicator is recomputed after a state copy (C20.R2); C20.R8 objects carry only the documented attributes and no function writes module-level containers (no caches / memos that go stale).'
-    ' Added after the fifth round of seeded changes: R2b the real attribute is read through get_val(); R4b the normaliser writes no attribute of the object on a rejecting path; C20.R8 also forbids mutable default arguments and private attributes hung on operands (x._cache, x.__dict__[...]).')
+    ' Added after the fifth round of seeded changes: R2b the real attribute is read through get_val(); R4b the normaliser writes no attribute of the object on a rejecting path; C20.R8 also forbids mutable default arguments and private attributes hung on operands (x._cache, x.__dict__[...]).'
+    ' Added after the sixth round of seeded changes: item() reads through astype / get_val (C16.R2: the read map is not left out); the size assembly of set_best_sizes (C06.R2) and the template rules of the function wrappers (C08.R3: a scaled out_like template is stored through its own map, never as raw codes) are included.')
 ASSUMPTIONS = ["scale != 0", "np.dtype('int64') == int holds while `is int` does not (NumPy lemma)"]
 TRUSTED = ["CPython ast", "fxlint rational term normaliser"]
 
